@@ -2,6 +2,7 @@ package gosym
 
 import (
 	"fmt"
+	"os"
 	"math/big"
 	"strings"
 )
@@ -57,6 +58,9 @@ func (it *Interp) overflowCheck(v Value, limit *big.Int, limitBits int, msg stri
 		return v
 	}
 	n := it.nameTerm(s)
+	if os.Getenv("VERIF_DEBUG") != "" {
+		fmt.Fprintf(os.Stderr, "overflowCheck needs solver at %s: lo=%v hi=%v term=%.200s\n", it.where(), s.Lo, s.Hi, s.T)
+	}
 	it.panicIf(mkOr(mkCmp(">=", n, limit), mkCmp("<=", n, new(big.Int).Neg(limit))), msg)
 	lim1 := new(big.Int).Sub(limit, big.NewInt(1))
 	return withRange(n, new(big.Int).Neg(lim1), lim1)
